@@ -235,8 +235,61 @@ def analysable(lay):
     return all(all(g % min(v) == 0 for g in v) for v in gaps.values())
 
 
-def _layouts(tier, nmax=2):
-    return st.lists(layout(tier), min_size=1, max_size=nmax)
+SIBLING_HOWS = ['shift', 'shift', 'behind', 'stride', 'irregular', 'irregular', 'same']
+
+
+@st.composite
+def sibling_layout(draw, base):
+    """Another part of the same Monte-Carlo history: the replica names and the number of configurations per replica of `base`,
+    but other configuration numbers (per replica: shifted so that the two parts overlap, placed right behind the first part,
+    spread with another stride, an irregular sub-sample of equal length, or unchanged).  Spacings stay multiples of the
+    replica's smallest spacing."""
+    m = draw(st.sampled_from([2, 2, 3]))
+    chains = []
+    for c in base['chains']:
+        il = c['idl']
+        n = len(il)
+        g = min(b - a for a, b in zip(il, il[1:]))
+        how = draw(st.sampled_from(SIBLING_HOWS))
+        if how == 'shift':
+            k = draw(st.integers(1, n)) * draw(st.sampled_from([1, 1, -1]))
+            new = [x + g * k for x in il]
+            if new[0] < 0:
+                new = [x + g * abs(k) for x in il]
+        elif how == 'behind':       # second half of the chain: starts where the first part ends
+            off = il[-1] + g - il[0]
+            new = [x + off for x in il]
+        elif how == 'stride':       # e.g. all configurations -> every second one, even -> a coarser grid
+            a = draw(st.sampled_from([il[0], il[0] + g, draw(st.integers(0, 20))]))
+            new = [a + m * (x - il[0]) for x in il]
+        elif how == 'irregular':    # irregular sub-sample of equal length on the grid of the replica
+            inc = draw(st.lists(st.sampled_from([1, 1, 1, 2, 3]), min_size=n - 1, max_size=n - 1))
+            j = draw(st.integers(0, n - 2))
+            k = draw(st.integers(0, n - 3))
+            if k >= j:
+                k += 1
+            inc[j], inc[k] = 1, max(inc[k], 2)
+            new = [draw(st.sampled_from([il[0], il[0] + g, il[-1] + g]))]
+            for i in inc:
+                new.append(new[-1] + g * i)
+        else:
+            new = list(il)
+        chains.append({'name': c['name'], 'idl': new, 'form': draw(gen.idl_form())})
+    return {'chains': chains, 'cov': copy.deepcopy(base['cov']) if draw(st.booleans()) else [],
+            'mag': draw(st.sampled_from([base['mag'], base['mag'], 'unit', 'wide'])), 'sibling': True}
+
+
+@st.composite
+def _layouts(draw, tier, nmax=2):
+    """1..nmax independent layouts; in half of the cases one more layout that is a sibling of one of them (same replicas, equally
+    many but other configurations), so that the structures of one document / dictionary / cell can live on different parts of
+    the same replica."""
+    lays = draw(st.lists(layout(tier), min_size=1, max_size=nmax))
+    with_mc = [i for i, la in enumerate(lays) if la['chains']]
+    if with_mc and draw(st.booleans()):
+        sib = draw(sibling_layout(lays[draw(st.sampled_from(with_mc))]))
+        lays.insert(draw(st.integers(0, len(lays))), sib)
+    return lays
 
 
 @st.composite
@@ -620,6 +673,45 @@ def note_layout(ctx, lay, n_obs):
     ctx.labels.add('mag:' + lay['mag'])
 
 
+def struct_layouts(node):
+    """layout indices of the structures below a spec node, in document order"""
+    if node['t'] in ('obs', 'list', 'array', 'corr'):
+        return [node['lay']]
+    if node['t'] == 'dict':
+        return [i for _, v in node['items'] for i in struct_layouts(v)]
+    if node['t'] in ('plist', 'olist'):
+        return [i for v in node['items'] for i in struct_layouts(v)]
+    return []
+
+
+def note_document(ctx, lay_indices):
+    """Measures what one document (all structures written into the same json text) holds: structures on the same replica
+    with equally many but different configurations (parts of one Monte-Carlo history), and how the parts are related."""
+    if len(lay_indices) > 1:
+        ctx.labels.add('doc:multi_structure')
+    seen = {}
+    for li in lay_indices:
+        for c in ctx.lays[li]['chains']:
+            seen.setdefault((c['name'], len(c['idl'])), [])
+            if c['idl'] not in seen[(c['name'], len(c['idl']))]:
+                seen[(c['name'], len(c['idl']))].append(c['idl'])
+    for ils in seen.values():
+        for a in ils[1:]:
+            b = ils[0]
+            ctx.labels.add('doc:same_replica_equal_length_other_configs')
+            ctx.nt_feature = True
+            da, db = [y - x for x, y in zip(a, a[1:])], [y - x for x, y in zip(b, b[1:])]
+            if da == db:
+                rel = 'disjoint' if (a[0] > b[-1] or b[0] > a[-1]) else 'shifted_overlapping'
+            elif len(set(da)) == 1 and len(set(db)) == 1:
+                rel = 'other_stride'
+            else:
+                rel = 'irregular'
+            ctx.labels.add('doc:parts_' + rel)
+    if len(set(lay_indices)) > 1 and any(ctx.lays[i].get('sibling') for i in lay_indices):
+        ctx.labels.add('doc:uses_sibling_layout')
+
+
 def tag_label(t):
     if t is None:
         return 'tag:none'
@@ -802,6 +894,7 @@ def json_oracle(spec):
     how = tr['how']
     ctx.labels.add('via:' + how)
     ctx.labels.add('n_structs:%d' % len(objs))
+    note_document(ctx, [i for n in spec['structs'] for i in struct_layouts(n)])
     with tempfile.TemporaryDirectory(prefix='c11_') as tmp:
         if how == 'string':
             arg = objs[0] if tr.get('bare') else objs
@@ -862,6 +955,7 @@ def dict_oracle(spec):
     ctx = Ctx(spec['layouts'])
     tr = spec['tr']
     od, exp = build_node(ctx, spec['root'])
+    note_document(ctx, struct_layouts(spec['root']))
     with tempfile.TemporaryDirectory(prefix='c11_') as tmp:
         base = os.path.join(tmp, 'd' + tr['ext'])
         rk = {'reps': tr['reps']} if tr.get('reps') else {}
@@ -892,6 +986,8 @@ def frame_oracle(spec):
     for c in cols:
         if c['obs']:
             pairs = [build_node(ctx, n) for n in c['cells']]
+            for n in c['cells']:          # every cell is a document of its own
+                note_document(ctx, struct_layouts(n))
             data[c['name']] = [p[0] for p in pairs]
             exps[c['name']] = [p[1] for p in pairs]
             ctx.labels.add('col:' + c['kind'])
